@@ -757,7 +757,11 @@ rt_prop("C02", ["task", "core", "bridge", "comb"],
         "Proof (Props/C02.lean): Resolve arities on the model of core/resolve.rs — never_rejected, once_accepts_one, "
         "once_second_rejected (second resolve = error, world unchanged), many_until_consumer_gone (ok iff consumer alive, else "
         "FinishedMany and nothing changes), delivered_unchanged_in_order (the value is appended unchanged to the request's own "
-        "channel), delivery_channel_private (fresh channel per request), serialized_agrees (bridge path = decode then resolve). The "
+        "channel), delivery_channel_private (fresh channel per request), serialized_agrees (bridge path = decode then resolve). "
+        "END TO END for one request (with the parking invariant K2 of C07): response_reaches_exactly_the_asker — resolving the "
+        "request a task is parked at is accepted, puts exactly the value into that request's channel, touches NO other channel, "
+        "wakes exactly the asking task's waker, and the task's next poll continues with the value bound; "
+        "stream_item_reaches_exactly_the_consumer, stream_items_consumed_in_order. The "
         "whole-run uniqueness of delivery is covered by the correspondence (unique payloads, equal operations, every resolve result "
         "class compared) — oracle keys resolve-result-differs / delivery-differs.")
 rt_prop("C03", ["core", "bridge"],
